@@ -88,6 +88,13 @@ impl Outcome {
 
 /// `kiki::generate` under catch_unwind.
 pub fn generate(src: &str) -> Outcome {
+    crate::engine::note_current_input(Some(src));
+    let r = generate_inner(src);
+    crate::engine::note_current_input(None);
+    r
+}
+
+fn generate_inner(src: &str) -> Outcome {
     match catch(|| kiki::generate(src)) {
         Ok(r) => Outcome::from_result(r),
         Err(msg) => Outcome::Panic(msg),
